@@ -1,5 +1,221 @@
 import CalicoVerif.Model.C41
+import CalicoVerif.Proofs.C18
+/-!
+C41 — Flow offload never bypasses endpoints that need per-packet processing.
+
+"Established" is read as conntrack state ESTABLISHED or RELATED (what the rule matches and what
+felix/design/dataplane.md states: NEW and INVALID packets still traverse policy).
+-/
 namespace CalicoVerif.C41
+open CalicoVerif.C18 (GoMap get set del NodupKeys get_set get_del nodupKeys_set nodupKeys_del
+  nodupKeys_nil get_eq_some_iff)
+
+/-- The property's own state: the current endpoints (whatever their QoS settings). -/
+structure Spec where
+  w : Nat → Option Wep
+  h : Nat → Option Hep
+
+def Spec.empty : Spec := ⟨fun _ => none, fun _ => none⟩
+
+def specStep (s : Spec) : Op → Spec
+  | .wepUpdate id w => { s with w := fun i => if id = i then some w else s.w i }
+  | .wepRemove id => { s with w := fun i => if id = i then none else s.w i }
+  | .hepUpdate id h => { s with h := fun i => if id = i then some h else s.h i }
+  | .hepRemove id => { s with h := fun i => if id = i then none else s.h i }
+  | .complete => s
+
+def specRun (ops : List Op) : Spec := ops.foldl specStep Spec.empty
+
+/-- `ip` is an address (of the manager's IP version) of a current workload endpoint that needs the
+forward hooks, or of a current host endpoint with DSCP policies. -/
+def Excluded (ipv : Nat) (s : Spec) (ip : String) : Prop :=
+  (∃ id w, s.w id = some w ∧ workloadNeedsForwardHooks w = true ∧ ip ∈ stripSubnetMasks (w.nets ipv)) ∨
+  (∃ id h, s.h id = some h ∧ h.nQos ≠ 0 ∧ ip ∈ stripSubnetMasks (h.ips ipv))
+
+/-- `workloadNeedsForwardHooks` is exactly "DSCP marking or a connection or packet rate limit";
+bandwidth settings play no role. -/
+theorem needs_iff (w : Wep) :
+    workloadNeedsForwardHooks w = true ↔
+      w.present = true ∧ (w.nQos > 0 ∨ ∃ q, w.controls = some q ∧ (q.imc ≠ 0 ∨ q.emc ≠ 0 ∨ q.ipr ≠ 0 ∨ q.epr ≠ 0)) := by
+  unfold workloadNeedsForwardHooks
+  cases hp : w.present <;> simp
+  by_cases hq : w.nQos > 0
+  · simp [hq]
+  · simp only [hq, if_false, false_or]
+    cases hc : w.controls with
+    | none => simp
+    | some q => simp [bne_iff_ne, or_assoc]
+
+def trackedW (ipv : Nat) (e : Option Wep) : Option (List String) :=
+  e.bind (fun w => if workloadNeedsForwardHooks w then some (stripSubnetMasks (w.nets ipv)) else none)
+def trackedH (ipv : Nat) (e : Option Hep) : Option (List String) :=
+  e.bind (fun h => if h.nQos = 0 then none else some (stripSubnetMasks (h.ips ipv)))
+
+/-- Refinement relation + the meaning of `dirty`. -/
+structure Rel (ipv : Nat) (m : Mgr) (s : Spec) : Prop where
+  ver : m.ipVersion = ipv
+  w : ∀ id, get m.wepIPs id = trackedW ipv (s.w id)
+  h : ∀ id, get m.hepIPs id = trackedH ipv (s.h id)
+  nw : NodupKeys m.wepIPs
+  nh : NodupKeys m.hepIPs
+  clean : m.dirty = false → ∃ ms, m.last = some ms ∧ ∀ ip, ip ∈ ms ↔ ip ∈ m.members
+
+theorem step_rel (ipv : Nat) (m : Mgr) (s : Spec) (op : Op) (r : Rel ipv m s) :
+    Rel ipv (m.step op) (specStep s op) := by
+  obtain ⟨ver, rw', rh, nw, nh, clean⟩ := r
+  cases op with
+  | wepUpdate id w =>
+    simp only [Mgr.step, specStep]
+    cases hn : workloadNeedsForwardHooks w
+    · simp only [Bool.not_false, if_true, Mgr.removeWorkload]
+      cases hg : get m.wepIPs id with
+      | none =>
+        refine ⟨ver, ?_, rh, nw, nh, clean⟩
+        intro i
+        by_cases hi : id = i
+        · subst hi; simp [trackedW, hn, hg]
+        · simp [hi, rw' i]
+      | some x =>
+        refine ⟨ver, ?_, rh, nodupKeys_del _ _ nw, nh, by simp⟩
+        intro i
+        by_cases hi : id = i
+        · subst hi; simp [trackedW, hn, get_del]
+        · simp [hi, get_del, rw' i]
+    · simp only [Bool.not_true, Bool.false_eq_true, if_false]
+      refine ⟨ver, ?_, rh, nodupKeys_set _ _ _ nw, nh, by simp⟩
+      intro i
+      by_cases hi : id = i
+      · subst hi; simp [trackedW, hn, get_set, ver]
+      · simp [hi, get_set, rw' i]
+  | wepRemove id =>
+    simp only [Mgr.step, specStep, Mgr.removeWorkload]
+    cases hg : get m.wepIPs id with
+    | none =>
+      refine ⟨ver, ?_, rh, nw, nh, clean⟩
+      intro i
+      by_cases hi : id = i
+      · subst hi; simp [trackedW, hg]
+      · simp [hi, rw' i]
+    | some x =>
+      refine ⟨ver, ?_, rh, nodupKeys_del _ _ nw, nh, by simp⟩
+      intro i
+      by_cases hi : id = i
+      · subst hi; simp [trackedW, get_del]
+      · simp [hi, get_del, rw' i]
+  | hepUpdate id h =>
+    simp only [Mgr.step, specStep]
+    by_cases hn : h.nQos = 0
+    · simp only [hn, if_true, Mgr.removeHost]
+      cases hg : get m.hepIPs id with
+      | none =>
+        refine ⟨ver, rw', ?_, nw, nh, clean⟩
+        intro i
+        by_cases hi : id = i
+        · subst hi; simp [trackedH, hn, hg]
+        · simp [hi, rh i]
+      | some x =>
+        refine ⟨ver, rw', ?_, nw, nodupKeys_del _ _ nh, by simp⟩
+        intro i
+        by_cases hi : id = i
+        · subst hi; simp [trackedH, hn, get_del]
+        · simp [hi, get_del, rh i]
+    · simp only [hn, if_false]
+      refine ⟨ver, rw', ?_, nw, nodupKeys_set _ _ _ nh, by simp⟩
+      intro i
+      by_cases hi : id = i
+      · subst hi; simp [trackedH, hn, get_set, ver]
+      · simp [hi, get_set, rh i]
+  | hepRemove id =>
+    simp only [Mgr.step, specStep, Mgr.removeHost]
+    cases hg : get m.hepIPs id with
+    | none =>
+      refine ⟨ver, rw', ?_, nw, nh, clean⟩
+      intro i
+      by_cases hi : id = i
+      · subst hi; simp [trackedH, hg]
+      · simp [hi, rh i]
+    | some x =>
+      refine ⟨ver, rw', ?_, nw, nodupKeys_del _ _ nh, by simp⟩
+      intro i
+      by_cases hi : id = i
+      · subst hi; simp [trackedH, get_del]
+      · simp [hi, get_del, rh i]
+  | complete =>
+    simp only [Mgr.step, specStep]
+    cases hd : m.dirty
+    · simp only [Bool.not_false, if_true]
+      exact ⟨ver, rw', rh, nw, nh, clean⟩
+    · simp only [Bool.not_true, Bool.false_eq_true, if_false]
+      exact ⟨ver, rw', rh, nw, nh, fun _ => ⟨m.members, rfl, fun ip => Iff.rfl⟩⟩
+
+theorem run_rel (ipv : Nat) (ops : List Op) : Rel ipv (run ipv ops) (specRun ops) := by
+  unfold run specRun
+  suffices h : ∀ m s, Rel ipv m s → Rel ipv (ops.foldl Mgr.step m) (ops.foldl specStep s) by
+    apply h
+    exact ⟨rfl, fun _ => rfl, fun _ => rfl, nodupKeys_nil, nodupKeys_nil, by simp [Mgr.new]⟩
+  induction ops with
+  | nil => intro m s r; exact r
+  | cons op rest ih => intro m s r; exact ih _ _ (step_rel ipv m s op r)
+
+theorem mem_flatten_values (m : GoMap Nat (List String)) (hn : NodupKeys m) (ip : String) :
+    ip ∈ (m.map (·.2)).flatten ↔ ∃ id ips, get m id = some ips ∧ ip ∈ ips := by
+  simp only [List.mem_flatten, List.mem_map]
+  constructor
+  · rintro ⟨l, ⟨p, hp, rfl⟩, hip⟩
+    exact ⟨p.1, p.2, (get_eq_some_iff m hn p.1 p.2).2 hp, hip⟩
+  · rintro ⟨id, ips, hg, hip⟩
+    exact ⟨ips, ⟨(id, ips), (get_eq_some_iff m hn id ips).1 hg, rfl⟩, hip⟩
+
+/-- **The exclusion set is exact.**  After ANY history of endpoint updates/removals and
+`CompleteDeferredWork` calls, whenever no work is pending (`dirty = false`) the members of the last
+`AddOrReplaceIPSet` are exactly the addresses of the current endpoints that need per-packet hooks. -/
+theorem exclusion_set_exact (ipv : Nat) (ops : List Op) (hd : (run ipv ops).dirty = false) :
+    ∃ ms, (run ipv ops).last = some ms ∧ ∀ ip, ip ∈ ms ↔ Excluded ipv (specRun ops) ip := by
+  have r := run_rel ipv ops
+  obtain ⟨ms, hl, hm⟩ := r.clean hd
+  refine ⟨ms, hl, fun ip => ?_⟩
+  rw [hm ip]
+  unfold Mgr.members Excluded
+  rw [List.mem_append, mem_flatten_values _ r.nw, mem_flatten_values _ r.nh]
+  constructor
+  · rintro (⟨id, ips, hg, hip⟩ | ⟨id, ips, hg, hip⟩)
+    · left
+      rw [r.w id] at hg
+      unfold trackedW at hg
+      cases hw : (specRun ops).w id with
+      | none => simp [hw] at hg
+      | some w =>
+        simp only [hw, Option.bind_some] at hg
+        by_cases hn : workloadNeedsForwardHooks w = true
+        · simp only [hn, if_true, Option.some.injEq] at hg
+          exact ⟨id, w, hw, hn, hg ▸ hip⟩
+        · simp [hn] at hg
+    · right
+      rw [r.h id] at hg
+      unfold trackedH at hg
+      cases hw : (specRun ops).h id with
+      | none => simp [hw] at hg
+      | some h =>
+        simp only [hw, Option.bind_some] at hg
+        by_cases hn : h.nQos = 0
+        · simp [hn] at hg
+        · simp only [hn, if_false, Option.some.injEq] at hg
+          exact ⟨id, h, hw, hn, hg ▸ hip⟩
+  · rintro (⟨id, w, hw, hn, hip⟩ | ⟨id, h, hw, hn, hip⟩)
+    · left
+      refine ⟨id, _, ?_, hip⟩
+      rw [r.w id, hw]; simp [trackedW, hn]
+    · right
+      refine ⟨id, _, ?_, hip⟩
+      rw [r.h id, hw]; simp [trackedH, hn]
+
+/-- `CompleteDeferredWork` always leaves nothing pending, so after any history followed by it the
+programmed set is exact. -/
+theorem complete_cleans (ipv : Nat) (ops : List Op) : (run ipv (ops ++ [.complete])).dirty = false := by
+  unfold run
+  rw [List.foldl_append]
+  simp only [List.foldl_cons, List.foldl_nil, Mgr.step]
+  cases h : (List.foldl Mgr.step (Mgr.new ipv) ops).dirty <;> simp [h]
 
 /-- The offload rule only fires for established/related packets whose source and destination
 are both outside the no-flow-offload set. -/
@@ -12,4 +228,37 @@ theorem offload_rule_guarded (ipv : Nat) (sets : String → String → Bool) (p 
   obtain ⟨h1, h2, h3⟩ := h
   refine ⟨?_, h2, h3⟩
   cases hc : p.ct <;> simp_all
+
+/-- **No bypass** (composition): if the kernel set holds what the manager last programmed and no work
+is pending, a packet the offload rule fires on is established/related and neither its source nor its
+destination is an address of a current endpoint that needs per-packet hooks. -/
+theorem no_bypass (ipv : Nat) (ops : List Op) (hd : (run ipv ops).dirty = false)
+    (sets : String → String → Bool)
+    (hk : ∀ ms, (run ipv ops).last = some ms → ∀ ip, sets (noOffloadSetName ipv) ip = true ↔ ip ∈ ms)
+    (p : Pkt) (hf : (offloadRule ipv).fires sets p = true) :
+    (p.ct = .established ∨ p.ct = .related) ∧
+    ¬ Excluded ipv (specRun ops) p.src ∧ ¬ Excluded ipv (specRun ops) p.dst := by
+  obtain ⟨ms, hl, hm⟩ := exclusion_set_exact ipv ops hd
+  obtain ⟨h1, h2, h3⟩ := offload_rule_guarded ipv sets p hf
+  refine ⟨h1, ?_, ?_⟩
+  · intro he
+    have := (hk ms hl p.src).2 ((hm p.src).2 he)
+    rw [h2] at this; cases this
+  · intro he
+    have := (hk ms hl p.dst).2 ((hm p.dst).2 he)
+    rw [h3] at this; cases this
+
+/-! ### Non-vacuity -/
+
+def exW : Wep := { present := true, nQos := 0, controls := some ⟨0, 5, 0, 0, 0⟩, nets4 := ["10.0.0.1/32"], nets6 := [] }
+def exW0 : Wep := { present := true, nQos := 0, controls := some ⟨0, 0, 0, 0, 1000⟩, nets4 := ["10.0.0.2/32"], nets6 := [] }
+def exOps : List Op := [.wepUpdate 1 exW, .wepUpdate 2 exW0, .hepUpdate 1 ⟨1, ["10.0.0.9"], []⟩, .complete]
+
+example : (run 4 exOps).dirty = false ∧ (run 4 exOps).last.isSome = true ∧
+    ((run 4 exOps).wepIPs.map (·.1)) = [1] ∧ ((run 4 exOps).hepIPs.map (·.1)) = [1] := by decide
+
+example : (offloadRule 4).fires (fun _ ip => ip == "10.0.0.1") ⟨.established, "10.0.0.2", "10.0.0.3"⟩ = true ∧
+    (offloadRule 4).fires (fun _ ip => ip == "10.0.0.1") ⟨.established, "10.0.0.2", "10.0.0.1"⟩ = false ∧
+    (offloadRule 4).fires (fun _ ip => ip == "10.0.0.1") ⟨.new, "10.0.0.2", "10.0.0.3"⟩ = false := by decide
+
 end CalicoVerif.C41
